@@ -315,6 +315,7 @@ impl Ctx {
         let mut v = vec![Space { name: "natives", total: natives }, Space { name: "filter-text", total: count_strings(TOKENS, toklen) }, Space { name: "cbor-bytes", total: if self.quick { 256 + 65536 } else { 256 + 65536 + 16_777_216 } }];
         let docs: u64 = self.docprogs.iter().map(|(_, a, n, _)| count_strings(a, *n)).sum();
         v.push(Space { name: "documents", total: docs });
+        v.push(Space { name: "cli-io", total: docs });
         v
     }
 
@@ -456,6 +457,62 @@ impl Ctx {
                     Some(jq::Ev::Err(_)) => Ok(1),
                     _ => Ok(0),
                 }
+            }
+            "cli-io" => {
+                // the same documents through the readers of the command line (file path and stdin path, with
+                // and without --slurp), every value read is written by every writer with three option sets
+                use jaq_all::fmts::{read, write, Format};
+                let mut idx = idx;
+                for (k, (_, alpha, n, _)) in self.docprogs.iter().enumerate() {
+                    let total = count_strings(alpha, *n);
+                    if idx < total {
+                        let doc = nth_string(alpha, idx, *n).unwrap();
+                        let fmts: &[Format] = match k {
+                            0 => &[Format::Json],
+                            1 => &[Format::Yaml],
+                            2 => &[Format::Toml],
+                            3 => &[Format::Xml],
+                            4 => &[Format::Csv],
+                            5 => &[Format::Tsv],
+                            6 => &[Format::Cbor, Format::Raw0],
+                            _ => &[Format::Raw, Format::Raw0],
+                        };
+                        let r = std::panic::catch_unwind(|| {
+                            let bytes = bytes::Bytes::from(doc.clone().into_bytes());
+                            let mut nvals = 0u64;
+                            for fmt in fmts {
+                                for slurp in [false, true] {
+                                    let mut vals: Vec<Val> = vec![];
+                                    if let Ok(s) = read::bytes_str(*fmt, &bytes) {
+                                        // like the command line, stop at the first reported error
+                                        vals.extend(read::parse(*fmt, &bytes, s, slurp).take(8).map_while(|v| v.ok()));
+                                    }
+                                    if let Ok(s) = read::read_string(*fmt, &bytes[..]) {
+                                        vals.extend(read::read(*fmt, &bytes[..], &s, slurp).take(8).map_while(|v| v.ok()));
+                                    }
+                                    for v in &vals {
+                                        for to in [Format::Json, Format::Yaml, Format::Toml, Format::Xml, Format::Csv, Format::Tsv, Format::Cbor, Format::Raw, Format::Raw0] {
+                                            for (indent, sort_keys, join) in [(None, false, false), (Some("  ".to_string()), true, false), (Some("\t".to_string()), false, true)] {
+                                                let pp = jaq_all::json::write::Pp { indent, sort_keys, styles: Default::default(), sep_space: true };
+                                                let mut out: Vec<u8> = vec![];
+                                                let _ = write::write(&mut out, &write::Writer { format: to, pp, join }, v);
+                                            }
+                                        }
+                                    }
+                                    nvals += vals.len() as u64;
+                                }
+                            }
+                            nvals
+                        });
+                        return match r {
+                            Ok(0) => Ok(1),
+                            Ok(_) => Ok(0),
+                            Err(p) => Err(jq::panic_msg(p)),
+                        };
+                    }
+                    idx -= total;
+                }
+                unreachable!()
             }
             "documents" => {
                 let mut idx = idx;
@@ -706,7 +763,7 @@ pub fn main(tier: Tier) -> ! {
     run.sample(ctx.describe("documents", 4321));
     run.sample(json!({"pool": ctx.pool.iter().map(|v| v.to_string().chars().take(40).collect::<String>()).collect::<Vec<_>>()}));
     run.finish(
-        "natives: every native filter and definition discovered from the tree (in value, path(.) and `|= .` position) x all tuples of input and arguments over a pool of boundary values (exhaustive for arity <= 2, 8 spread values for further positions); filter text: all token strings of length <= 3 (thorough 4) over 71 tokens, lexed, parsed, loaded, compiled, every report rendered plain and coloured, accepted programs run; documents: all token strings per format over structural alphabets through fromjson/fromyaml/fromtoml/fromxml/fromcsv/fromtsv/@base64d and all byte strings of length <= 2 (thorough 3) through fromcbor. Every case runs in a child process under catch_unwind with overflow checks and debug assertions; a panic, abort or signal is a violation, allocation failure and capacity overflow are counted as excluded. distinct non-trivial counts distinct case indices (capped at 200000 entries) ",
+        "natives: every native filter and definition discovered from the tree (in value, path(.) and `|= .` position) x all tuples of input and arguments over a pool of boundary values (exhaustive for arity <= 2, 8 spread values for further positions); filter text: all token strings of length <= 3 (thorough 4) over 71 tokens, lexed, parsed, loaded, compiled, every report rendered plain and coloured, accepted programs run; documents: all token strings per format over structural alphabets through fromjson/fromyaml/fromtoml/fromxml/fromcsv/fromtsv/@base64d and all byte strings of length <= 2 (thorough 3) through fromcbor; cli-io: the same documents through the readers of the command line (file and stdin entry points of every input format incl. raw and raw0, with and without --slurp, stopping at the first reported error like the command line) and every value read through every writer (9 output formats x 3 option sets). Every case runs in a child process under catch_unwind with overflow checks and debug assertions; a panic, abort or signal is a violation, allocation failure and capacity overflow are counted as excluded. distinct non-trivial counts distinct case indices (capped at 200000 entries) ",
         &["arguments that control repetition or generation counts are limited to |n| <= 64 (allocation size is a resource); so is the order of the Bessel functions jn/yn, whose libm implementation takes time linear in the order (seconds for 2^31, not a crash)", "until/2 with constant arguments, halt_error, debug, stderr, input(s) are not swept (listed in filters_skipped)"],
     )
 }
